@@ -228,7 +228,7 @@ func createInputConverter(functionType reflect.Type) (func([]*variable.Value) ([
 			if err != nil {
 				return nil, fmt.Errorf("failed to convert argument number %d: %w", i, err)
 			}
-			inputParameters = append(inputParameters, inputParameter)
+			inputParameters = append(inputParameters, inputParameter.Convert(functionType.In(i)))
 		}
 
 		return inputParameters, nil
@@ -262,7 +262,7 @@ func createVariadicInputConverter(functionType reflect.Type) (func([]*variable.V
 			if err != nil {
 				return nil, fmt.Errorf("failed to convert argument number %d: %w", i, err)
 			}
-			inputParameters = append(inputParameters, inputParameter)
+			inputParameters = append(inputParameters, inputParameter.Convert(functionType.In(i)))
 		}
 
 		for i := numIn - 1; i < len(args); i++ {
@@ -270,7 +270,7 @@ func createVariadicInputConverter(functionType reflect.Type) (func([]*variable.V
 			if err != nil {
 				return nil, fmt.Errorf("failed to convert argument number %d: %w", i, err)
 			}
-			inputParameters = append(inputParameters, inputParameter)
+			inputParameters = append(inputParameters, inputParameter.Convert(functionType.In(numIn-1).Elem()))
 		}
 
 		return inputParameters, nil
